@@ -19,6 +19,7 @@ Decided:
   R11.4  long-time curves: t_s = H^2 / (9 alpha) with alpha = k / rhoCp, times = exp(log_time) * t_s, one
          curve and one radius stored per height; boundary condition MIFT, 8 unequal segments, equivalent
          solver are the defaults and no caller overrides them; the equivalent height is B / (B/H)
+  R11.8  a height within the tolerance of a stored bound is moved onto THAT bound
   R11.7  every return of g_function_interpolation pairs a curve with the radius of the SAME height: a stored curve
          g_lts[K] is returned with r_b_values[K] (the same key expression), an interpolated curve with the radius
          table evaluated at the same equivalent height
@@ -60,7 +61,42 @@ def check(prog: Program, tier: str) -> Result:
     _interp_table(prog, res)
     _axis(prog, res)
     _return_pairs(prog, res)
+    _snaps(prog, res)
     return res
+
+
+def _snaps(prog: Program, res: Result):
+    """R11.8: `if abs(x - bound) < tol: x = value` moves x onto a bound it is already within tol of - the value assigned must be
+    THAT bound (whatever locals the two are written through); anything else replaces the requested height by another one"""
+    from .search_common import expand_locals
+
+    q = f"{GF}.GFunction.g_function_interpolation"
+    fi = prog.func(q)
+    n = 0
+    for node in ast.walk(fi.node):
+        if not (isinstance(node, ast.If) and isinstance(node.test, ast.Compare) and len(node.test.ops) == 1 and isinstance(node.test.ops[0], (ast.Lt, ast.LtE))):
+            continue
+        l = node.test.left
+        if not (isinstance(l, ast.Call) and attr_chain(l.func) == "abs" and len(l.args) == 1 and isinstance(l.args[0], ast.BinOp) and isinstance(l.args[0].op, ast.Sub)):
+            continue
+        a, b = l.args[0].left, l.args[0].right
+        for s_ in node.body:
+            if not (isinstance(s_, ast.Assign) and len(s_.targets) == 1 and isinstance(s_.targets[0], ast.Name)):
+                continue
+            x = s_.targets[0].id
+            other = b if (isinstance(a, ast.Name) and a.id == x) else (a if (isinstance(b, ast.Name) and b.id == x) else None)
+            if other is None:
+                continue
+            n += 1
+            want = ast.unparse(expand_locals(fi.node, other, node.lineno))
+            got = ast.unparse(expand_locals(fi.node, s_.value, s_.lineno))
+            ok = want == got
+            res.ob("R11.8", f"'{ast.unparse(node.test)[:50]}' snaps {x} onto the bound it was compared with ({got[:40]})", ok, prog.loc(fi, s_))
+            if not ok:
+                res.violation("R11.8", f"snap|{want[:40]}|{got[:40]}", prog.loc(fi, s_), q,
+                              f"within the tolerance of {want[:60]} the requested height is replaced by {got[:60]}: the curve of another height is returned for it")
+    res.count("bound_snaps", n)
+    res.floor("bound_snaps", 2)
 
 
 def _return_pairs(prog: Program, res: Result):
@@ -885,6 +921,11 @@ def _longtime(prog: Program, res: Result):
 
 
 VARIANTS = [
+    Variant("a height within 1e-6 of the smallest stored one is moved onto the LARGEST (seeded C11_j)", "break",
+            [(GF, "        if abs(h_eq - min(height_values)) < close_tolerance:\n            h_eq = min(height_values)", "        if abs(h_eq - min(height_values)) < close_tolerance:\n            h_eq = max(height_values)")], "R11.8"),
+    Variant("bounds of the stored heights held in locals", "benign",
+            [(GF, "        if abs(h_eq - max(height_values)) < close_tolerance:\n            h_eq = max(height_values)\n        if abs(h_eq - min(height_values)) < close_tolerance:\n            h_eq = min(height_values)",
+              "        h_lo, h_hi = min(height_values), max(height_values)\n        if abs(h_eq - h_hi) < close_tolerance:\n            h_eq = h_hi\n        if abs(h_eq - h_lo) < close_tolerance:\n            h_eq = h_lo")]),
     Variant("long-time solver told to linearise the response below one hour (seeded C11_h)", "break",
             [(GF, '    if boundary in ("UHTR", "UBWT"):\n        gfunc = gt.gfunction.gFunction(', '    options["linear_threshold"] = 3600.0\n    if boundary in ("UHTR", "UBWT"):\n        gfunc = gt.gfunction.gFunction(')], "R11.4"),
     Variant("long-time solver asked to keep the segment profiles", "benign",
